@@ -30,13 +30,14 @@ import (
 // specification of the target language.
 
 type irInstr struct {
-	res  string   // "%5" or ""
-	op   string   // add, icmp, select, call, ret, ...
-	ty   string   // result / operand type (iN)
-	args []string // operand tokens
-	pred string   // icmp predicate
-	toTy string   // conversion target
-	raw  string
+	res    string   // "%5" or ""
+	op     string   // add, icmp, select, call, ret, ...
+	ty     string   // result / operand type (iN)
+	args   []string // operand tokens
+	pred   string   // icmp predicate
+	toTy   string   // conversion target
+	argTys []string
+	raw    string
 }
 
 type irFunc struct {
@@ -119,15 +120,16 @@ func parseIR(text string) []*irFunc {
 			ins.args = []string{f[2]}
 			ins.toTy = f[4]
 		case "call":
-			// call void @"...AssertX"(i1 %c)
+			// call <ret> @"name"(ty a, ty b, ...)
 			i := strings.Index(rest, "@")
-			j := strings.Index(rest, "(")
+			j := strings.Index(rest[i:], "(") + i
 			ins.pred = strings.Trim(rest[i+1:j], `"`)
 			inner := rest[j+1 : strings.LastIndex(rest, ")")]
 			for _, a := range strings.Split(inner, ",") {
 				fa := strings.Fields(a)
 				if len(fa) >= 2 {
 					ins.args = append(ins.args, fa[len(fa)-1])
+					ins.argTys = append(ins.argTys, fa[0])
 					ins.ty = fa[0]
 				}
 			}
@@ -135,6 +137,14 @@ func parseIR(text string) []*irFunc {
 			ins.ty = f[1]
 			if len(f) > 2 {
 				ins.args = []string{f[2]}
+			}
+		case "extractvalue":
+			// extractvalue <aggregate type> %x, k   (type may contain spaces/quotes)
+			ins.args = []string{f[len(f)-2], f[len(f)-1]}
+		case "getelementptr", "load", "alloca", "store", "bitcast", "insertvalue", "ptrtoint", "inttoptr":
+			ins.ty = ""
+			if ins.op == "load" && len(f) > 1 {
+				ins.ty = f[1]
 			}
 		case "br", "phi", "switch", "unreachable":
 			cur.multi = true
@@ -160,7 +170,15 @@ type irVal struct {
 	poison string // SMT Bool term
 }
 
+type irCall struct {
+	name string
+	args []irVal
+	tys  []string
+}
+
 type irEval struct {
+	calls []irCall
+	decls []string
 	vals  map[string]irVal
 	ub    []string // conditions under which executing the code is undefined behaviour (guarded by "not yet panicked")
 	panic map[string][]string
@@ -318,7 +336,22 @@ func (e *irEval) eval(fn *irFunc) (ret irVal) {
 			e.vals[ins.res] = irVal{t: t, w: tw, poison: a.poison}
 		case "call":
 			kind := ins.pred[strings.LastIndex(ins.pred, ".")+1:]
-			if !strings.HasPrefix(kind, "Assert") || len(ins.args) != 1 {
+			if !strings.HasPrefix(kind, "Assert") {
+				// any other call: recorded with its integer operands; result opaque
+				c := irCall{name: kind}
+				for i, a := range ins.args {
+					aw := irWidth(ins.argTys[i])
+					c.tys = append(c.tys, ins.argTys[i])
+					if aw > 0 {
+						c.args = append(c.args, e.operand(a, aw))
+					} else {
+						c.args = append(c.args, irVal{t: a})
+					}
+				}
+				e.calls = append(e.calls, c)
+				continue
+			}
+			if len(ins.args) != 1 {
 				e.err = "unsupported call " + ins.pred
 				continue
 			}
@@ -328,8 +361,24 @@ func (e *irEval) eval(fn *irFunc) (ret irVal) {
 			e.ub = append(e.ub, andS(e.alive, c.poison))
 			e.panic[kind] = append(e.panic[kind], andS(e.alive, fire))
 			e.alive = andS(e.alive, "(not "+fire+")")
+		case "extractvalue":
+			// field k of an aggregate parameter: a symbolic constant; runtime.Slice is
+			// {ptr, len, cap}, runtime.String {ptr, len}: fields 1 and 2 are 64-bit ints
+			if ins.args[1] != "0" {
+				name := "ev_" + strings.TrimPrefix(ins.args[0], "%") + "_" + ins.args[1]
+				e.decls = append(e.decls, fmt.Sprintf("(declare-const %s (_ BitVec 64))\n(assert (bvsge %s (_ bv0 64)))\n", name, name))
+				e.vals[ins.res] = irVal{t: name, w: 64, poison: "false"}
+			}
+		case "getelementptr", "alloca", "store", "bitcast", "insertvalue", "ptrtoint", "inttoptr":
+			// memory / pointer instructions after the check: opaque
+		case "load":
+			if lw := irWidth(ins.ty); lw > 0 && ins.res != "" {
+				name := "ld_" + strings.TrimPrefix(ins.res, "%")
+				e.decls = append(e.decls, fmt.Sprintf("(declare-const %s (_ BitVec %d))\n", name, lw))
+				e.vals[ins.res] = irVal{t: name, w: lw, poison: "false"}
+			}
 		case "ret":
-			if len(ins.args) == 1 {
+			if len(ins.args) == 1 && w > 0 {
 				return e.operand(ins.args[0], w)
 			}
 		default:
@@ -510,8 +559,7 @@ func buildC02Case(fn *irFunc, useUF bool) *c02Case {
 	for i, p := range fn.params {
 		w := irWidth(p)
 		if w == 0 {
-			c.skip = "non-integer parameter " + p
-			w = 1
+			continue // pointer / aggregate parameter: opaque
 		}
 		name := fmt.Sprintf("a%d", i)
 		fmt.Fprintf(&decl, "(declare-const %s (_ BitVec %d))\n", name, w)
